@@ -19,11 +19,11 @@ RULE = ("(layout) per PDU class (v0/v1/v2, Rx/Tx) a value dict drawn over the fi
         "pdu_object_life: several PDUs in a row, and ONE PDU object encoded again after in-place changes (top level, inside a batched sub-PDU, "
         "sub-PDU list grown / shrunk) or after decoding another datagram - always the layout of the current content. Non-trivial: EDGE-length, batched, legacy-padded or NOPE case.")
 LEVEL = "exploration"
-ASSUMPTIONS = ["modulation codes the documentation leaves undefined (0b0111, 0b111x) are not asserted either way",
+ASSUMPTIONS = ["the one modulation code the TRXD documentation reserves (0b0111) is not asserted either way; AQPSK is '1 1 X X' (all four codes 0b11xx)",
                "Tx definitions have no padding field: for legacy-padded Tx datagrams only acceptance and the burst prefix are asserted"]
 
 MOD_CODES = {0b0000: 148, 0b0001: 148, 0b0010: 148, 0b0011: 148, 0b0100: 444, 0b0101: 444, 0b0110: 148,
-             0b1000: 592, 0b1001: 592, 0b1010: 740, 0b1011: 740, 0b1100: 296, 0b1101: 296}
+             0b1000: 592, 0b1001: 592, 0b1010: 740, 0b1011: 740, 0b1100: 296, 0b1101: 296, 0b1110: 296, 0b1111: 296}
 
 
 def be(v, n):
@@ -142,12 +142,12 @@ def pdu_case(draw):
                     x["soft-bits" if rx else "hard-bits"] = bytes(148)
                 return x
             if flavour == "max":
-                m = {"nope": 0, "mod": 0b1101, "tsc": 7}
+                m = {"nope": 0, "mod": 0b1111, "tsc": 7}
                 x = dict(m, tn=7, batch=1, trxn=63)
                 if batched:
                     x["shadow"] = 1
                 x.update(dict(rssi=-255, toa256=-1, cir=-1) if rx else dict(pwr=255, scpir=-1))
-                x["soft-bits" if rx else "hard-bits"] = b"\xff" * MOD_CODES[0b1101]
+                x["soft-bits" if rx else "hard-bits"] = b"\xff" * MOD_CODES[0b1111]
                 return x
             m = draw(mts_st())
             x = dict(m, tn=draw(st.integers(0, 7)), batch=draw(st.integers(0, 1)), trxn=draw(st.integers(0, 63)))
